@@ -8,7 +8,7 @@ CONSTANTS NA = 2
           MaxCode = 2
           MaxSnap = 2
           MaxTx = 3
-          MaxCommits = 6
+          MaxCommits = 12
           Ops = {"BeginTx", "AddBalance", "SubBalance", "SetNonce", "SetCode", "SetState", "SelfDestruct", "CreateAccount", "EvmCreate", "Snapshot", "Revert", "Finalise", "IntermediateRoot", "Commit", "Open", "Copy", "Persist"}
           RuleNames = {"pre158", "eip158", "cancun", "amsterdam"}
           BaseKinds = {0, 1, 2, 3, 4}
